@@ -12,6 +12,7 @@ Verdict logic (DESIGN.md section 4):
 import ast
 import hashlib
 import importlib
+import itertools
 import json
 import os
 import random
@@ -509,7 +510,12 @@ def run_check(pid, tier, seed, replay=None):
         budget = (200 if thorough else 20)
         rng2 = random.Random(rng.random())
         tend = time.time() + (600 if thorough else 60)
-        for d in mod.generate(tier, rng2, budget):
+        gen = mod.generate(tier, rng2, budget)
+        if disagreements and hasattr(mod, "focus_generate"):
+            # the search is biased towards the branch where the disagreement was seen: the module first proposes
+            # inputs of the same kind as the disagreeing cases, then the ordinary generator follows
+            gen = itertools.chain(mod.focus_generate(tier, rng2, [dc[0].desc for dc in disagreements[:50]]), gen)
+        for d in gen:
             if time.time() > tend:
                 break
             searched += 1
